@@ -1086,3 +1086,62 @@ Proof.
   - unfold drop_typs. rewrite map_map. cbn [fst]. exact Hnd.
   - destruct ps; [contradiction | discriminate].
 Qed.
+
+(* ================= 11. a return entry and no parameter ================= *)
+Lemma haf_clean_nl doc x :
+  clean doc = true -> head_ok x = true -> tail_ok x = true ->
+  header_args_footer_to_str doc (NL :: x ++ [NL]) [] = doc ++ [NL; NL] ++ x ++ [NL].
+Proof.
+  intros Hd Hx Tx. destruct (clean_parts doc Hd) as [D1 [D2 _]].
+  assert (Hen : num_of_nls doc true = O) by (apply nls_end_tail_ok; exact D2).
+  assert (Xne : x <> []) by (apply head_ok_ne, Hx).
+  assert (S1 : num_of_nls (NL :: x ++ [NL]) false = 1%nat).
+  { unfold num_of_nls. cbn [count_nls_prefix]. rewrite N.eqb_refl. f_equal. apply count_nls_head_ok, head_ok_app, Hx. }
+  assert (E1 : num_of_nls (NL :: x ++ [NL]) true = 1%nat).
+  { change (NL :: x ++ [NL]) with (([NL] ++ x) ++ [NL]). apply nls_end_one; [apply tail_ok_app_r, Tx | discriminate]. }
+  assert (CL : count_leading_space doc = O).
+  { destruct doc as [|d0 dr]; [discriminate|]. cbn. rewrite (head_ok_not_space d0 dr D1). reflexivity. }
+  destruct doc as [|d0 dr]; [discriminate|]. destruct x as [|x0 xr]; [contradiction|].
+  unfold header_args_footer_to_str. cbv iota beta zeta.
+  rewrite S1, Hen, E1. cbn [length Nat.eqb Nat.ltb Nat.leb negb andb nls repeat app].
+  assert (A1s : num_of_nls (NL :: NL :: x0 :: xr ++ [NL]) false = 2%nat).
+  { unfold num_of_nls. cbn [count_nls_prefix]. rewrite N.eqb_refl. do 2 f_equal.
+    apply head_ok_not_space in Hx. rewrite (nonspace_not_nl x0 Hx), Hx. reflexivity. }
+  cbn [app]. rewrite !app_nil_r. rewrite A1s, CL. cbn [firstn count_char Nat.sub count_leading_space].
+  replace (is_space NL) with true by reflexivity. cbn [Nat.eqb spaces repeat]. unfold indent. rewrite indent_nil, ?app_nil_r.
+  assert (LO : last_opt (NL :: NL :: x0 :: xr ++ [NL]) = Some NL).
+  { change (NL :: NL :: x0 :: xr ++ [NL]) with ((NL :: NL :: x0 :: xr) ++ [NL]). apply last_opt_app_nl. }
+  rewrite LO, N.eqb_refl. cbn [app length Nat.ltb Nat.leb andb Nat.add Nat.eqb orb nls repeat negb]. rewrite !app_nil_r. reflexivity.
+Qed.
+
+Theorem emit_is_render_ret_only doc r :
+  clean doc = true -> entry_ok r = true -> emit_rest true doc [] (Some r) = render doc [] (Some r).
+Proof.
+  intros Hd Hr. destruct (clean_parts doc Hd) as [D1 [D2 _]].
+  destruct (lines_block_ok (s2l "return") (s2l "rtype") r Hr) as [R1 R2]. cbn zeta in R1, R2.
+  fold (emit_return true r) in R1, R2.
+  unfold emit_rest, render, all_lines. cbn [lines_params app].
+  assert (AR : args_returns true [] (Some r) = NL :: emit_return true r ++ [NL]).
+  { unfold args_returns. cbn [map join]. set (R := emit_return true r) in *.
+    destruct R as [|r0 rr] eqn:ER; [discriminate|]. rewrite <- ER in *.
+    cbn [length Nat.eqb orb app]. replace (num_of_nls [] true) with O by reflexivity.
+    assert (L1 : Nat.eqb (length R) 0 = false) by (rewrite ER; reflexivity). rewrite L1.
+    rewrite (nls_end_tail_ok R R2). cbn [Nat.ltb Nat.leb negb andb orb Nat.eqb app]. reflexivity. }
+  rewrite AR.
+  assert (NS : isspace (NL :: emit_return true r ++ [NL]) = false).
+  { cbn [isspace forallb]. replace (is_space NL) with true by reflexivity. cbn [andb].
+    destruct (emit_return true r) as [|r0 rr]; [discriminate|]. cbn [app forallb]. rewrite (head_ok_not_space r0 rr R1). reflexivity. }
+  rewrite NS, (haf_clean_nl doc (emit_return true r) Hd R1 R2).
+  rewrite emit_wrapper.
+  - rewrite (ret_text r [NL] Hr), <- !app_assoc. reflexivity.
+  - apply head_ok_app, D1.
+  - rewrite !count_char_app. cbn [count_char]. rewrite N.eqb_refl. destruct (count_char NL doc); reflexivity.
+Qed.
+
+Theorem rest_roundtrip_ret_only doc r :
+  clean doc = true -> entry_ok r = true ->
+  parse_rest (emit_rest true doc [] (Some r)) = {| p_doc := doc; p_params := []; p_ret := Some r |}.
+Proof.
+  intros Hd Hr. rewrite emit_is_render_ret_only by assumption.
+  apply parse_render; auto; [constructor | right; discriminate].
+Qed.
